@@ -73,3 +73,99 @@ def collections(rng):
             for a in colls:
                 for b in colls:
                     yield {"A": seq(a, ka), "B": seq(b, kb)}
+
+
+@scope("count_vectors_N2")
+def count_vectors_N2(rng):
+    for rec in count_vectors(rng):
+        rec = {"n": rec["counts"]}
+        yield rec
+
+
+@scope("count_arrays_N4")
+def count_arrays_N4(rng):
+    for n in range(1, 5):
+        for vals in itertools.product(range(0, 6), repeat=n):
+            if sum(vals) >= 4:
+                yield {"n": seq([I(v) for v in vals], "ndarray")}
+    while True:
+        yield {"n": seq([I(rng.randint(0, 30)) for _ in range(rng.randint(1, 8))], "ndarray")}
+
+
+def _samples(rng, lo=2):
+    strs = ["A", "B", "C", "AB"]
+    for kind in ("list", "ndarray"):
+        for n in range(lo, 5):
+            for xs in itertools.product(strs[:3], repeat=n):
+                yield seq([S(x) for x in xs], kind)
+    for n in range(lo, 5):
+        for xs in itertools.product([1, 2, 3], repeat=n):
+            yield seq([I(x) for x in xs], "list")
+
+
+@scope("samples")
+def samples(rng):
+    firsts = list(_samples(rng))
+    for a in firsts:
+        yield {"array": a, "array2": NONE}
+    seconds = list(_samples(rng, 1))
+    for _ in range(4000):
+        a = rng.choice(firsts)
+        b = rng.choice([s for s in seconds if (s["items"][0]["t"] == a["items"][0]["t"])])
+        yield {"array": a, "array2": b}
+
+
+@scope("containers")
+def containers(rng):
+    base = [["AA", "AB", "B"], ["A"], ["C", "C", "A", "B"]]
+    for items in base:
+        n = len(items)
+        for kind in ("list", "tuple", "ndarray"):
+            yield {"arr_like": seq([S(x) for x in items], kind)}
+        for idx in (None, list(range(n))[::-1], [i + 10 for i in range(n)], [7 * i % 5 + 3 * i for i in range(n)]):
+            yield {"arr_like": seq([S(x) for x in items], "Series", idx)}
+    yield {"arr_like": seq([I(1), I(2)], "list")}
+    yield {"arr_like": seq([I(1), I(2)], "ndarray")}
+
+
+@scope("tuple_or_not")
+def tuple_or_not(rng):
+    yield {"seqs": NONE}
+    yield {"seqs": seq([S("A"), S("B")], "list")}
+    yield {"seqs": seq([S("A"), S("B")], "ndarray")}
+    yield {"seqs": {"t": "tuple", "items": [seq([S("A"), S("B"), S("C")], "list"), seq([S("X"), S("Y"), S("Z")], "list")]}}
+    yield {"seqs": py("pd.DataFrame({'CDR3A': ['A'], 'x': [1]})")}
+
+
+def _build_ns():
+    import numpy as np
+    import pandas as pd
+    BUILD_NS.update(np=np, pd=pd)
+
+
+_build_ns()
+
+
+def table(columns):
+    return {"t": "table", "columns": columns}
+
+
+@scope("tables_on")
+def tables_on(rng):
+    vals = ["A", "B", "AB", "", "A_B", "A.B"]
+    for _ in range(3000):
+        ncol = rng.randint(1, 4)
+        names = ["a", "b", "c", "d"][:ncol]
+        n = rng.randint(2, 5)
+        df = table({c: [rng.choice(vals[:4]) for _ in range(n)] for c in names})
+        on = rng.sample(names, rng.randint(1, ncol))
+        rec = {"df": df, "on": {"t": "const", "v": on}, "gap_token": {"t": "const", "v": rng.choice(["_", "|"])}, "df_2": NONE}
+        if rng.random() < 0.4:
+            rec["df_2"] = table({c: [rng.choice(vals[:4]) for _ in range(rng.randint(1, 4))] for c in ["a", "b", "c", "d"]})
+        yield rec
+
+
+@scope("samples4")
+def samples4(rng):
+    for a in _samples(rng, 4):
+        yield {"array": a}
